@@ -752,6 +752,15 @@ where
         R_: Registry,
     {
         if TypeId::of::<C>() == TypeId::of::<C_>() {
+            // The component being removed is owned by the buffer like every other component in it.
+            // Since it is not moved into any column, it must be dropped here.
+            drop(
+                // SAFETY: The bit buffer is guaranteed to have a properly initialized value of
+                // type `C` at this point because the components within the bit buffer are
+                // guaranteed to be ordered in the same order as the registry. The value is read
+                // exactly once, so ownership of it is transferred out of the buffer.
+                unsafe { buffer.cast::<C>().read_unaligned() },
+            );
             // Skip this component in the buffer.
             buffer =
                 // SAFETY: The bit buffer is guaranteed to have a value of type `C` at this point
